@@ -491,6 +491,9 @@ def gen_scenario(root, profile=None):
     r2 = HRng(root, "scenario-ext1")
     if r2.chance(p["p_shuffle_keys"]) and p["world"] != "sim":
         script["shuffle_keys"] = True  # the script lists the entries of a report in varying order
+    script["level_noise"] = r2.choice([0.4, 0.4, 0.15, 0.05])
+    if script.get("payload") and r2.chance(0.15):
+        script["payload"] = list(script["payload"]) + ["cr"]
     if r2.chance(p["p_repeat_level"]) and kind in ("hb_stopping", "hb_rush_stopping"):
         script["repeat_level"] = r2.choice([0.1, 0.3])  # some resource values are reported twice (legal for stopping-type schedulers)
     if scen.get("latency") and p["world"] == "local" and r2.chance(p["p_io_latency"]):
